@@ -1312,6 +1312,18 @@ func c03R2(c *Ctx) {
 			if copyGraphs[g] {
 				return call, args
 			}
+			// a closure handed to a module helper that runs it (outsideRegion(region, func() error { return copyGraph(…) }))
+			if depth < 3 {
+				for _, a := range call.Common().Args {
+					if _, isSig := a.Type().Underlying().(*types.Signature); isSig {
+						if ha, _ := c01FuncOfValue(a); ha != nil && ha != fn && len(ha.Blocks) > 0 && ha.Parent() == fn {
+							if c2, a2 := find(ha, map[*ssa.Parameter]ssa.Value{}, depth+1); c2 != nil {
+								return c2, a2
+							}
+						}
+					}
+				}
+			}
 			if depth < 3 && len(args) == len(g.Params) {
 				sub := map[*ssa.Parameter]ssa.Value{}
 				for i, prm := range g.Params {
